@@ -8,20 +8,19 @@ Property theorems only.  Models: `RimeModel/C13/Model.lean` (a builder = a seque
 a kill = any prefix; the order of the stores comes from `RimeModel.Gen.DeployFacts`, regenerated from the source
 on every run), `RimeModel/C13/Crash.lean` (crash states of a whole deployment in the terms of the C12 model).
 
-Full statement wanted (kept visible):
+Full statement (now proved for every artefact kind, from the facts regenerated from the current source):
 ```
 ∀ artefact kind, ∀ prefix of its builder's stores:  Load accepts the file  →  the file is the untouched old one
                                                                               or holds all the data of the new build
 ```
-* proved outright for `table.bin` and `prism.bin` (`table_loadable_complete`, `prism_loadable_complete`) — the
-  proofs use the generated facts, so a change of the store order in the source breaks them;
-* for `reverse.bin` it holds iff the file is removed before it is rebuilt.  On the tree where
-  `reverseRemovedFirst = false` the statement is FALSE (`reverse_loadable_complete_counterexample`: the in-place
-  `Resize` keeps the old tag and checksum and may cut the old data); `reverse_loadable_complete_partial` proves
-  it for rebuilds whose estimate does not cut the old file;
-* for compiled YAML it holds iff the file is not written in place.  On the tree where `yamlSavedInPlace = true`
-  it is FALSE (`yaml_loadable_complete_counterexample`): `__build_info` is the first entry emitted, so a prefix
-  that stops anywhere after it passes `ConfigNeedsUpdate`.
+* `table_loadable_complete`, `prism_loadable_complete`, `reverse_loadable_complete`, `yaml_loadable_complete`: the
+  proofs use the generated facts (tag stored last, file removed before it is rebuilt, `Load` tests the tag, compiled
+  YAML not written in place), so a change of the store order in the source breaks them.
+* History, kept on the *old* store order (before 8477a8a / 464c800): `old_reverse_loadable_complete_counterexample`
+  (a reverse db rebuilt in place: `Resize` keeps the old tag and checksum and may cut the old data),
+  `old_reverse_loadable_complete_partial` (it held only for rebuilds whose estimate did not cut the old file),
+  `old_yaml_loadable_complete_counterexample` (compiled YAML written in place: `__build_info` is the first entry
+  emitted, so a prefix that stops anywhere after it passes `ConfigNeedsUpdate`).
 -/
 namespace C13
 open RimeModel.C13 RimeModel.Gen
@@ -32,6 +31,10 @@ theorem generated_facts_table_prism :
     DeployFacts.prismRemovedFirst = true ∧ DeployFacts.prismTagLast = true ∧ DeployFacts.prismLoadTestsTag = true ∧
     DeployFacts.reverseTagLast = true ∧ DeployFacts.reverseLoadTestsTag = true ∧
     DeployFacts.allocateZeroes = true := by decide
+
+/-- … and the reverse db / compiled YAML theorems -/
+theorem generated_facts_reverse_yaml :
+    DeployFacts.reverseRemovedFirst = true ∧ DeployFacts.yamlSavedInPlace = false := by decide
 
 /-- **`table.bin`**: after a kill at any point of `BuildTable` (Remove, Create, Build, Save), a table file that
 `Table::Load` accepts is the untouched old file (nothing was done yet) or holds all the data of the new build
@@ -57,55 +60,56 @@ theorem prism_loadable_complete (tagLen minTag : Nat) (hmin : 1 ≤ minTag) (b :
   rw [hf.2.2.2.2.2.1] at hl
   exact removed_first_tag_last tagLen minTag hmin b f0 f hf.2.2.2.2.2.2.2.2 h hl
 
-/-- **`reverse.bin`, provided the source removes the file before rebuilding it** (the premise is a generated
-fact: the check reports it when it is false and replays the counterexample below). -/
-theorem reverse_loadable_complete (hrm : DeployFacts.reverseRemovedFirst = true)
-    (tagLen minTag : Nat) (hmin : 1 ≤ minTag) (b : Build) (f0 f : File)
+/-- **`reverse.bin`**: the same for `BuildReverseDb` — the source removes the old file before rebuilding it
+(generated fact `reverseRemovedFirst`). -/
+theorem reverse_loadable_complete (tagLen minTag : Nat) (hmin : 1 ≤ minTag) (b : Build) (f0 f : File)
     (h : Reach (reverseProgram tagLen b) f0 f) (hl : load DeployFacts.reverseLoadTestsTag minTag f = true) :
     f = f0 ∨ ∃ img, f = some img ∧ CompleteData b img := by
   have hf := generated_facts_table_prism
   unfold reverseProgram program at h
-  simp only [hrm, hf.2.2.2.2.2.2.1, ↓reduceIte, List.append_nil, List.cons_append, List.nil_append,
-    List.append_assoc] at h
+  simp only [generated_facts_reverse_yaml.1, hf.2.2.2.2.2.2.1, ↓reduceIte, List.append_nil, List.cons_append,
+    List.nil_append, List.append_assoc] at h
   rw [hf.2.2.2.2.2.2.2.1] at hl
   exact removed_first_tag_last tagLen minTag hmin b f0 f hf.2.2.2.2.2.2.2.2 h hl
 
-/-- **`reverse.bin`, rebuilt in place** (`reverseRemovedFirst = false`): a file that `Load` accepts holds all
-the data of the old build or of the new one, *provided the new capacity estimate is not smaller than the old
-file* (and the old file, if any, was complete).  What is missing for the full statement: rebuilds that shrink. -/
-theorem reverse_loadable_complete_partial (hrm : DeployFacts.reverseRemovedFirst = false)
+/-- **History — `reverse.bin` rebuilt in place** (the store order before 8477a8a: no removal, `Create` resizes
+the existing file): a file that `Load` accepts holds all the data of the old build or of the new one *only if
+the new capacity estimate is not smaller than the old file*. -/
+theorem old_reverse_loadable_complete_partial
     (tagLen minTag : Nat) (hmin : 1 ≤ minTag) (b0 b : Build) (f0 f : File)
     (h0 : f0 = none ∨ ∃ img0, f0 = some img0 ∧ CompleteData b0 img0 ∧ img0.size ≤ b.cap)
-    (h : Reach (reverseProgram tagLen b) f0 f) (hl : load DeployFacts.reverseLoadTestsTag minTag f = true) :
+    (h : Reach (program false true tagLen b) f0 f) (hl : load true minTag f = true) :
     ∃ img, f = some img ∧ (CompleteData b0 img ∨ CompleteData b img) := by
   have hf := generated_facts_table_prism
-  unfold reverseProgram program at h
-  simp only [hrm, hf.2.2.2.2.2.2.1, ↓reduceIte, List.append_nil, List.cons_append, List.nil_append,
-    List.append_assoc, Bool.false_eq_true] at h
-  rw [hf.2.2.2.2.2.2.2.1] at hl
+  unfold program at h
+  simp only [↓reduceIte, List.append_nil, List.cons_append, List.nil_append, List.append_assoc,
+    Bool.false_eq_true] at h
   exact in_place_tag_last tagLen minTag hmin b0 b f0 f hf.2.2.2.2.2.2.2.2 h0 h hl
 
-/-- **`reverse.bin`, the negation of the full statement on a tree that rebuilds it in place**: a complete old
-reverse db of 100 bytes, a rebuild whose estimate is 40 bytes, a kill right after `MappedFile::Create` resized
-the file: `Load` accepts it (old tag), its checksum is the old one, and its data is cut. -/
-theorem reverse_loadable_complete_counterexample (hrm : DeployFacts.reverseRemovedFirst = false)
-    (hcr : DeployFacts.createResizesExisting = true) :
+/-- **History — the negation of the full statement for a reverse db rebuilt in place**: a complete old reverse
+db of 100 bytes, a rebuild whose estimate is 40 bytes, a kill right after `MappedFile::Create` resized the
+file: `Load` accepts it (old tag), its checksum is the old one, and its data is cut.  (Found on the real code
+as `C13:loadable-incomplete:reverse` / `C13:redeploy-fails:reverse-truncated`.) -/
+theorem old_reverse_loadable_complete_counterexample (hcr : DeployFacts.createResizesExisting = true) :
     ∃ (b0 b : Build) (img0 : Img) (f : File), CompleteData b0 img0 ∧ img0.tag = 16 ∧
-      Reach (reverseProgram 16 b) (some img0) f ∧ load true 13 f = true ∧
+      Reach (program false true 16 b) (some img0) f ∧ load true 13 f = true ∧
       ∀ img, f = some img → ¬ CompleteData b0 img ∧ ¬ CompleteData b img := by
   refine ⟨⟨1, 120, 10, [50, 100]⟩, ⟨2, 40, 10, [20, 30]⟩, ⟨100, 16, some 1, 2, 100⟩,
     some ⟨40, 16, some 1, 2, 100⟩, ⟨rfl, rfl, by simp⟩, rfl, ⟨1, ?_⟩, by decide, ?_⟩
-  · simp [reverseProgram, program, hrm, run, Op.run, hcr]
+  · simp [program, run, Op.run, hcr]
   · intro img h
     cases h
     simp [CompleteData]
 
 /-! ### compiled YAML -/
 
-/-- **compiled YAML, provided the source does not write it in place** (temporary file + rename): a kill leaves
-the old file or the complete new one at the destination. -/
-theorem yaml_loadable_complete (hip : DeployFacts.yamlSavedInPlace = false) (doc : Doc) (s0 s : YState)
-    (h0 : s0.tmp = none) (h : YReach (saveToFile doc) s0 s) : s.dest = s0.dest ∨ s.dest = some doc := by
+/-- **compiled YAML** (and every other config file): the source writes a temporary file and renames it into
+place (generated fact `yamlSavedInPlace = false`), so whatever the temporary file held before and wherever the
+kill comes — while the temporary file is written, between its last write and the rename, after the rename —
+the destination is the old file or the complete new one; a left-over temporary file is never the destination. -/
+theorem yaml_loadable_complete (doc : Doc) (s0 s : YState)
+    (h : YReach (saveToFile doc) s0 s) : s.dest = s0.dest ∨ s.dest = some doc := by
+  have hip := generated_facts_reverse_yaml.2
   obtain ⟨k, hk⟩ := h
   subst hk
   unfold saveToFile yamlProgram
@@ -132,19 +136,19 @@ theorem yaml_loadable_complete (hip : DeployFacts.yamlSavedInPlace = false) (doc
   | zero => left; rfl
   | succ k =>
     have := key doc [] s0.dest k
-    simpa [yrun, YOp.run, h0] using this
+    simpa [yrun, YOp.run] using this
 
-/-- **compiled YAML written in place: the negation of the full statement.**  Witness: a compiled schema with
+/-- **History — compiled YAML written in place (before 464c800): the negation of the full statement.**  Witness: a compiled schema with
 `__build_info` (value 7 = the timestamps of the current sources) and two more entries; the kill comes after the
 second piece reached the file.  The file passes the test `ConfigNeedsUpdate` applies (it parses, its build info
 matches the sources), it is neither the old file nor the complete new one, and `engine` is missing. -/
-theorem yaml_loadable_complete_counterexample (hip : DeployFacts.yamlSavedInPlace = true) :
-    ∃ (doc old : Doc) (s : YState), YReach (saveToFile doc) ⟨some old, none⟩ s ∧
+theorem old_yaml_loadable_complete_counterexample :
+    ∃ (doc old : Doc) (s : YState), YReach (yamlProgram true doc) ⟨some old, none⟩ s ∧
       yload ("__build_info", 7) s.dest = true ∧ s.dest ≠ some old ∧ s.dest ≠ some doc ∧
       ∀ d, s.dest = some d → ("engine", 3) ∉ d := by
   refine ⟨[("__build_info", 7), ("alphabet", 2), ("engine", 3)], [("__build_info", 5), ("alphabet", 1), ("engine", 3)],
     ⟨some [("__build_info", 7), ("alphabet", 2)], none⟩, ⟨3, ?_⟩, by decide, by decide, by decide, ?_⟩
-  · simp [saveToFile, yamlProgram, hip, yrun, YOp.run]
+  · simp [yamlProgram, yrun, YOp.run]
   · intro d hd
     cases hd
     decide
